@@ -18,9 +18,12 @@ inductive Tok where
   | nl
 deriving DecidableEq, Repr, Inhabited
 
-/-- blanks inside a line (`str.split()` without argument); '\n' is the line terminator. -/
+/-- blanks inside a line: what `str.split()` without argument splits on (`str.isspace`), except
+    the line terminators '\n' and '\r', which the text-mode file iteration turns into line ends. -/
 def isWs (c : Char) : Bool :=
-  c = ' ' || c = '\t' || c = '\r' || c = '\x0b' || c = '\x0c'
+  c = ' ' || c = '\t' || c = '\x0b' || c = '\x0c' || c = '\x1c' || c = '\x1d' || c = '\x1e' || c = '\x1f'
+  || c = '\u0085' || c = '\u00a0' || c = '\u1680' || (0x2000 ≤ c.toNat && c.toNat ≤ 0x200a)
+  || c = '\u2028' || c = '\u2029' || c = '\u202f' || c = '\u205f' || c = '\u3000'
 
 def flushW (cur : List Char) : List Tok :=
   if cur = [] then [] else [Tok.word (String.ofList cur)]
@@ -30,6 +33,9 @@ def lexGo : List Char → Bool → List Char → List Tok
   | cur, dirty, [] => flushW cur ++ (if dirty then [Tok.nl] else [])
   | cur, dirty, c :: cs =>
       if c = '\n' then flushW cur ++ Tok.nl :: lexGo [] false cs
+      else if c = '\r' then
+        -- universal newlines: "\r\n" is one line end, a lone '\r' is a line end
+        (if cs.head? = some '\n' then lexGo cur dirty cs else flushW cur ++ Tok.nl :: lexGo [] false cs)
       else if isWs c then flushW cur ++ lexGo [] true cs
       else lexGo (cur ++ [c]) true cs
 
